@@ -73,12 +73,14 @@ def _nearsql_fields(program) -> Set[str]:
 
 
 class Engine:
+    DEPTH = 4
+
     def __init__(self, program, res):
         self.program = program
         self.res = res
         self.sm = program.cls("sql_model", "SQLModel")
         self.fields = _nearsql_fields(program)
-        self.slicer = T.Slicer(program, [self.sm], nearsql_fields=self.fields)
+        self.slicer = T.Slicer(program, [self.sm], nearsql_fields=self.fields, max_depth=Engine.DEPTH)
         self.ns_demands: Dict[str, str] = {}      # field -> first demanding emitter
         self.param_demands: Dict[Tuple[str, str], str] = {}   # (function name, param) -> who
         self.sink_count = 0
@@ -669,6 +671,8 @@ def run(program, res, tier):
     res.rule("C14-S3", "comment text is constant, configuration or cleaned of line breaks")
     res.rule("C14-S4", "quote_string / quote_identifier cover the dialect's special characters")
     res.rule("C14-S5", "no string-inspecting rewrite of assembled SQL")
+    Engine.DEPTH = 8 if tier == "thorough" else 4  # helper inlining depth of the slicer
+    res.extra["C14 helper inlining depth"] = Engine.DEPTH
     eng, rewrites = _s1(program, res)
     _s2(program, res)
     _s3(program, res)
